@@ -73,6 +73,14 @@ def make_case(case, ctx):
             subs[first]['__share'] = 'shared0'
             subs[first + '_twin'] = subs[first]
             crisk.add('shared_subcircuit_update')
+        # constants declared with an integer default (k: 2) - overrides are floats all the same
+        if rnd.random() < 0.35:
+            cands_i = [(o, v) for o, od in spec['ops'].items() for v, d in od['vars'].items() if d[0] == 'const']
+            for o, v in rnd.sample(cands_i, min(len(cands_i), rnd.randint(1, 2))):
+                spec['ops'][o]['vars'][v][1] = rnd.choice([1, 2, 3, 5])
+            crisk_int = True
+        else:
+            crisk_int = False
         ref0 = RefModel(spec)
         nodes = ref0.node_order
 
@@ -88,7 +96,7 @@ def make_case(case, ctx):
             return vals.new()
         # overrides
         updates, node_values, edge_updates = [], {}, []
-        kinds = []
+        kinds = ['int_declared_constants'] if crisk_int else []
         for _ in range(rnd.randint(1, 4)):
             kind = rnd.choice(['scalar', 'scalar', 'array', 'node_values', 'edge'])
             cands = [k for k in ref0.kind if k[0] in nodes and ref0.kind[k] in ('const', 'state')]
@@ -131,7 +139,7 @@ def make_case(case, ctx):
                 if not any(x[0] == e[0] and x[1] == e[1] for x in edge_updates):
                     edge_updates.append([e[0], e[1], {'weight': round(vals.new() * 2, 4)}])
                     kinds.append('edge_updates')
-        if not kinds:
+        if not [k_ for k_ in kinds if k_ != 'int_declared_constants']:
             continue
         spec['updates'] = updates
         spec['node_values'] = node_values
